@@ -7,11 +7,11 @@ import (
 	"encoding/json"
 	"fmt"
 	"sort"
+	"strings"
 	"sync"
 
 	"gopkg.in/typ.v4/sync2"
 	"verif/harness/core"
-	"verif/harness/lin"
 	"verif/harness/sched"
 )
 
@@ -114,6 +114,9 @@ func execute(cs Case, choose sched.Chooser) (sched.Result, *runInfo) {
 		}
 	}
 	r := sched.Run(threads, choose, 6000)
+	if r.Panic != "" || r.Deadlock {
+		return r, info // goroutines may be parked inside a set (holding its m.mu): Slice() -> Range could block on it for real
+	}
 	for i := range sets {
 		info.final[i] = sets[i].Slice()
 		sort.Ints(info.final[i])
@@ -121,9 +124,134 @@ func execute(cs Case, choose sched.Chooser) (sched.Result, *runInfo) {
 	return r, info
 }
 
-// all explored schedules are checked by the oracle; one in emitEvery of the passing ones also goes to the Coq model
+// all explored schedules are checked by the oracle; one in emitEvery of the passing ones also goes to the Coq model,
+// and so does every run that contains a coverage feature (a model label, or a label-to-label transition inside a
+// call) which fewer than coverK model-replayed cases contain so far
 var emitEvery = 1
 var emitCount int
+
+// ---- label coverage of the model replay (audit item H5/H1) ----
+
+// setLabels: the labels of SyncMap/Model.v that a sync2.Set program can execute: Add = LoadOrStore, Remove =
+// LoadAndDelete, Has = Load, Len/AddSet/RemoveSet = Range (with nested calls). Store is never called, so the
+// Store_*, TryStore_* and StoreLocked labels are not reachable, nor are the keyed-mutex labels.
+var setLabels = []string{
+	"Load_read1", "Load_lock", "Load_read2", "Load_unlock", "E_load",
+	"Unexpunge_cas",
+	"LOS_read1", "LOS_lock", "LOS_read2", "LOS_amend", "LOS_unlock",
+	"Tlos_load1", "Tlos_cas", "Tlos_load2",
+	"LAD_read1", "LAD_lock", "LAD_read2", "LAD_unlock", "Delete_load", "Delete_cas",
+	"Range_read1", "Range_lock", "Range_read2", "Range_promote", "Range_unlock", "Range_iter",
+	"Miss_store", "Dirty_read", "Dirty_iter", "Expunge_load1", "Expunge_cas", "Expunge_load2",
+}
+
+// branches: transitions (consecutive labels of one goroutine inside one call) that show a failed CAS or a further
+// iteration of a CAS loop, and a nested call made from a Range callback (AddSet / RemoveSet)
+var branches = [][2]string{
+	{"cas_retry_delete", "Delete_cas>Delete_load"},
+	{"cas_fail_tlos", "Tlos_cas>Tlos_load2"},
+	{"cas_loop_tlos", "Tlos_load2>Tlos_cas"},
+	{"cas_fail_expunge", "Expunge_cas>Expunge_load2"},
+	{"cas_loop_expunge", "Expunge_load2>Expunge_cas"},
+	{"nested_add", "E_load>>LOS_read1"},
+	{"nested_remove", "E_load>>LAD_read1"},
+}
+
+const coverK = 5 // every feature is replayed on the model in at least its first coverK runs
+
+type coverage struct {
+	executed map[string]int // feature -> runs of the real code containing it
+	replayed map[string]int // feature -> runs sent to the Coq model containing it
+}
+
+var cov = coverage{map[string]int{}, map[string]int{}}
+
+// features of a run: every label; every transition a>b between consecutive steps of one goroutine where b is not the
+// first label of a call; and a>>b where b is the first label of a call and a is the E_load of a Range iteration (the
+// call is then a nested Add / Remove made by an AddSet / RemoveSet callback).
+func features(steps []sched.Step, topStart map[int]bool) []string {
+	set := map[string]bool{}
+	last := map[int]string{}
+	for i, s := range steps {
+		set[s.Label] = true
+		if p, ok := last[s.T]; ok && !topStart[i] {
+			if !strings.HasSuffix(s.Label, "_read1") {
+				set[p+">"+s.Label] = true
+			} else {
+				set[p+">>"+s.Label] = true
+			}
+		}
+		last[s.T] = s.Label
+	}
+	out := make([]string, 0, len(set))
+	for f := range set {
+		out = append(out, f)
+	}
+	sort.Strings(out)
+	return out
+}
+
+// coverageReport writes the table into the statistics (label_<name> = number of model-replayed cases that contain
+// the label) and names what was never reached.
+func coverageReport(c *core.Ctx, labels []string) {
+	var neverRun, neverReplayed []string
+	labelsReplayed := 0
+	for _, l := range labels {
+		c.Stats["label_"+l] = cov.replayed[l]
+		if cov.executed[l] == 0 {
+			neverRun = append(neverRun, l)
+		} else if cov.replayed[l] == 0 {
+			neverReplayed = append(neverReplayed, l)
+		} else {
+			labelsReplayed++
+		}
+	}
+	for _, b := range branches {
+		c.Stats["branch_"+b[0]] = cov.replayed[b[1]]
+		c.Stats["branch_"+b[0]+"_runs"] = cov.executed[b[1]]
+		if cov.executed[b[1]] == 0 {
+			neverRun = append(neverRun, b[0])
+		} else if cov.replayed[b[1]] == 0 {
+			neverReplayed = append(neverReplayed, b[0])
+		}
+	}
+	trans, transReplayed := 0, 0
+	var transOnlyRun []string
+	for f, n := range cov.executed {
+		if !strings.Contains(f, ">") || n == 0 {
+			continue
+		}
+		trans++
+		if cov.replayed[f] > 0 {
+			transReplayed++
+		} else {
+			transOnlyRun = append(transOnlyRun, f)
+		}
+	}
+	sort.Strings(transOnlyRun)
+	c.Stats["transitions_executed"] = trans
+	c.Stats["transitions_replayed_on_model"] = transReplayed
+	var foreign []string
+	known := map[string]bool{}
+	for _, l := range labels {
+		known[l] = true
+	}
+	for f := range cov.executed {
+		if !strings.Contains(f, ">") && !known[f] {
+			foreign = append(foreign, f)
+		}
+	}
+	sort.Strings(foreign)
+	if c.NoModel {
+		c.Note(fmt.Sprintf("label coverage (tier %s, no model replay): %d of %d model labels executed by the real code; never executed: %v",
+			c.Tier, labelsReplayed+len(neverReplayed), len(labels), neverRun))
+		return
+	}
+	c.Note(fmt.Sprintf("label coverage of the model replay: %d of the %d model labels a Set program can reach and %d of %d executed in-call label transitions occur in a model-replayed case "+
+		"(each in at least min(%d, number of runs containing it) replayed cases); never executed by the real code: %v; "+
+		"executed but never replayed on the model: labels/branches %v, transitions %v; labels executed that a Set program was not expected to reach: %v",
+		labelsReplayed, len(labels), transReplayed, trans, coverK, neverRun, neverReplayed, transOnlyRun, foreign))
+}
 
 func report(c *core.Ctx, cs Case, r sched.Result, info *runInfo) {
 	cs.Choices = r.Chosen
@@ -144,18 +272,42 @@ func report(c *core.Ctx, cs Case, r sched.Result, info *runInfo) {
 	if len(cs.Progs) > 1 && pre > 0 {
 		c.Nontrivial()
 	}
-	failsBefore := c.Stats["oracle_failures"]
+	failedNow := true
 	if r.Panic != "" {
 		c.Fail("panic or runaway schedule in sync2.Set", r.Panic)
 	} else if r.Deadlock {
 		c.Fail("deadlock in sync2.Set", fmt.Sprint(r.Steps))
-	} else if msg := oracle(cs, r, info); msg != "" {
+	} else if msg := oracle(c, cs, r, info); msg != "" {
 		c.Fail(msg, describe(info))
+	} else {
+		failedNow = false
 	}
+	topStart := map[int]bool{}
+	for _, iv := range intervals(r, info) {
+		topStart[iv[0]] = true
+	}
+	feats := features(r.Steps, topStart)
+	rare := false
+	for _, f := range feats {
+		cov.executed[f]++
+		if cov.replayed[f] < coverK {
+			rare = true
+		}
+	}
+	rare = rare && !c.NoModel
 	emitCount++
-	if emitEvery > 1 && emitCount%emitEvery != 0 && c.Stats["oracle_failures"] == failsBefore {
+	sampled := emitEvery <= 1 || emitCount%emitEvery == 0
+	if !sampled && !failedNow && !rare {
 		c.Count("explored_oracle_only")
 		return
+	}
+	if !sampled && !failedNow {
+		c.Count("replayed_for_label_coverage")
+	}
+	if !c.NoModel {
+		for _, f := range feats {
+			cov.replayed[f]++
+		}
 	}
 	progs := make([]string, len(cs.Progs))
 	results := make([]string, len(cs.Progs))
@@ -175,9 +327,14 @@ func report(c *core.Ctx, cs Case, r sched.Result, info *runInfo) {
 		}
 		fin[i] = core.List(ps)
 	}
-	c.Emit(fmt.Sprintf("Case 2 %s %s %s %s %s", core.List(progs), sched.CoqSteps(r.Steps), core.List(results),
-		core.Bool(r.Deadlock), core.List(fin)))
+	c.Emit(fmt.Sprintf("%s 2 %s %s %s %s %s%s", caseCtor, core.List(progs), sched.CoqSteps(r.Steps), core.List(results),
+		core.Bool(r.Deadlock), core.List(fin), caseTail))
 }
+
+// The Coq case constructor (SyncMap/Check.v): `CaseZ` = the six fields of `Case` and a seventh, "the stored values are
+// zero-size" - true for a Set, whose values are struct{}{}: all of them share one address, so a CompareAndSwap from a
+// stale pointer to such a value succeeds (Model.cas_ok).
+const caseCtor, caseTail = "CaseZ", " true"
 
 func describe(info *runInfo) string {
 	s := ""
@@ -189,13 +346,10 @@ func describe(info *runInfo) string {
 	return s + fmt.Sprintf("final=%v", info.final)
 }
 
-// oracle: single-element calls of each set must be linearizable to a set (which is exactly
-// "successful Adds and Removes of a value alternate, starting with an Add, consistently with real
-// time; Has agrees"); composite calls contribute to the conservation law.
-func oracle(cs Case, r sched.Result, info *runInfo) string {
-	composite := false
-	var ops [2][]lin.Op
-	adds, removes := [2]int{}, [2]int{}
+// intervals: per call (in the order of info.calls, thread by thread) the indices of its first and last atomic step:
+// the k-th call of thread t owns t's steps between the previous call's end and its own end. {-1,-1} = no step.
+func intervals(r sched.Result, info *runInfo) [][2]int {
+	var out [][2]int
 	for t, calls := range info.calls {
 		prevEnd := 0
 		for _, ci := range calls {
@@ -209,35 +363,198 @@ func oracle(cs Case, r sched.Result, info *runInfo) string {
 				}
 			}
 			prevEnd = ci.endAt
+			out = append(out, [2]int{first, last})
+		}
+	}
+	return out
+}
+
+// ---- linearizability of one Set's history, with the element operations of AddSet / RemoveSet ----
+
+// sop is one operation on one set. comp < 0: a completed Add / Remove / Has call with its result ok. comp >= 0: an
+// element operation that the comp-th AddSet / RemoveSet call of this set MAY have made on value v (kind Add or
+// Remove) somewhere inside that call's interval: whether it was made and what it reported is not observable, only
+// the number of successes of the whole call is.
+type sop struct {
+	first, last int
+	kind        string
+	v           int
+	ok          bool
+	comp        int
+}
+
+type linKey struct {
+	m0, m1 uint64
+	st     uint64
+}
+
+const linMaxOps = 128
+
+// linSet: is there a linearization of ops - every completed call at one instant inside its interval, each possible
+// element operation of a composite call either not made (or made without success, which changes nothing) or made
+// with success at one instant inside the composite call's interval, exactly need[comp] successes per composite call -
+// that is a legal history of a sequential set starting empty? (Values are 0..63.)
+func linSet(ops []sop, need []int) bool {
+	if len(ops) > linMaxOps {
+		panic("linSet: history too long")
+	}
+	var done [2]uint64
+	var st uint64
+	count := make([]int, len(need))
+	seen := map[linKey]bool{}
+	isDone := func(i int) bool { return done[i>>6]&(1<<uint(i&63)) != 0 }
+	var rec func() bool
+	rec = func() bool {
+		minLast, pending := int(^uint(0)>>1), false
+		maxFirstDone := -1
+		for i, o := range ops {
+			if isDone(i) {
+				if o.first > maxFirstDone {
+					maxFirstDone = o.first
+				}
+			} else if o.comp < 0 {
+				pending = true
+				if o.last < minLast {
+					minLast = o.last
+				}
+			}
+		}
+		if !pending {
+			for i := range need {
+				if count[i] != need[i] {
+					return false
+				}
+			}
+			return true
+		}
+		k := linKey{done[0], done[1], st}
+		if seen[k] {
+			return false
+		}
+		seen[k] = true
+		for i, o := range ops {
+			if isDone(i) || o.first > minLast {
+				continue
+			}
+			bit := uint64(1) << uint(o.v)
+			present := st&bit != 0
+			old := st
+			if o.comp < 0 {
+				switch o.kind {
+				case "Add":
+					if o.ok == present {
+						continue
+					}
+					st |= bit
+				case "Remove":
+					if o.ok != present {
+						continue
+					}
+					st &^= bit
+				default: // Has
+					if o.ok != present {
+						continue
+					}
+				}
+			} else {
+				// a possible element operation: only its success is an event; it must lie inside the composite call's
+				// interval, so it cannot come after an operation that began after that call's last step
+				if o.last < maxFirstDone || count[o.comp] >= need[o.comp] || (o.kind == "Add") == present {
+					continue
+				}
+				st ^= bit
+				count[o.comp]++
+			}
+			done[i>>6] |= 1 << uint(i&63)
+			if rec() {
+				return true
+			}
+			done[i>>6] &^= 1 << uint(i&63)
+			st = old
+			if o.comp >= 0 {
+				count[o.comp]--
+			}
+		}
+		return false
+	}
+	return rec()
+}
+
+// oracle: the property on the observed history, per set.
+// (1) conservation: successful Adds - successful Removes + counts of AddSets - counts of RemoveSets = final size.
+// (2) the history of the set - its Add / Remove / Has calls, one Has per value after the end (the final contents), and,
+// for every AddSet / RemoveSet call INTO this set, one possible element operation per value of the case's universe -
+// must be linearizable to a sequential set (linSet): successful Adds and Removes of each value (those of the composite
+// calls included, however their counts are attributed to values) alternate starting with an Add consistently with
+// real time, Has agrees with them, and the counts of the composite calls are exactly met. A set that is only an
+// ARGUMENT of composite calls is just iterated by them, so its own history is checked like that of any other set.
+// (3) Len is between 0 and the number of values of the universe.
+func oracle(c *core.Ctx, cs Case, r sched.Result, info *runInfo) string {
+	ivs := intervals(r, info)
+	var ops [2][]sop
+	var need [2][]int
+	adds, removes := [2]int{}, [2]int{}
+	universe := map[int]bool{}
+	for _, calls := range info.calls {
+		for _, ci := range calls {
+			if ci.spec.Op == "Add" || ci.spec.Op == "Remove" || ci.spec.Op == "Has" {
+				universe[ci.spec.V] = true
+			}
+		}
+	}
+	for s := 0; s < 2; s++ {
+		for _, v := range info.final[s] {
+			universe[v] = true
+		}
+	}
+	var values []int
+	for v := range universe {
+		if v < 0 || v > 63 {
+			c.Unobservable("C05 oracle: value outside 0..63")
+			return ""
+		}
+		values = append(values, v)
+	}
+	sort.Ints(values)
+	idx := 0
+	for t, calls := range info.calls {
+		for _, ci := range calls {
+			first, last := ivs[idx][0], ivs[idx][1]
+			idx++
+			if first < 0 {
+				return fmt.Sprintf("call %s of thread %d took no atomic step", ci.spec.Op, t)
+			}
 			s := ci.spec.S
 			switch ci.spec.Op {
-			case "Add":
-				ops[s] = append(ops[s], lin.Op{T: t, First: first, Last: last, Kind: "LoadOrStore", K: ci.spec.V, ROK: !ci.b})
-				if ci.b {
+			case "Add", "Remove", "Has":
+				ops[s] = append(ops[s], sop{first: first, last: last, kind: ci.spec.Op, v: ci.spec.V, ok: ci.b, comp: -1})
+				if ci.b && ci.spec.Op == "Add" {
 					adds[s]++
 				}
-			case "Remove":
-				ops[s] = append(ops[s], lin.Op{T: t, First: first, Last: last, Kind: "LoadAndDelete", K: ci.spec.V, ROK: ci.b})
-				if ci.b {
+				if ci.b && ci.spec.Op == "Remove" {
 					removes[s]++
 				}
-			case "Has":
-				ops[s] = append(ops[s], lin.Op{T: t, First: first, Last: last, Kind: "Load", K: ci.spec.V, ROK: ci.b})
-			case "AddSet":
-				composite = true
-				adds[s] += ci.n
+			case "AddSet", "RemoveSet":
 				if ci.n < 0 {
-					return "AddSet returned a negative count"
+					return ci.spec.Op + " returned a negative count"
 				}
-			case "RemoveSet":
-				composite = true
-				removes[s] += ci.n
-				if ci.n < 0 {
-					return "RemoveSet returned a negative count"
+				kind := "Add"
+				if ci.spec.Op == "AddSet" {
+					adds[s] += ci.n
+				} else {
+					removes[s] += ci.n
+					kind = "Remove"
 				}
+				if ci.n > len(values) {
+					return fmt.Sprintf("%s returned %d, more than the %d values that exist in this run", ci.spec.Op, ci.n, len(values))
+				}
+				for _, v := range values {
+					ops[s] = append(ops[s], sop{first: first, last: last, kind: kind, v: v, comp: len(need[s])})
+				}
+				need[s] = append(need[s], ci.n)
 			case "Len":
-				if ci.n < 0 {
-					return "Len returned a negative count"
+				if ci.n < 0 || ci.n > len(values) {
+					return fmt.Sprintf("Len returned %d; the run has %d values", ci.n, len(values))
 				}
 			}
 		}
@@ -248,38 +565,41 @@ func oracle(cs Case, r sched.Result, info *runInfo) string {
 		if adds[s]-removes[s] != len(info.final[s]) {
 			return fmt.Sprintf("set %d: %d successful adds - %d successful removes != final size %d", s, adds[s], removes[s], len(info.final[s]))
 		}
-		if composite {
-			continue // element-level effects of AddSet/RemoveSet are not individually observable
+	}
+	for s := 0; s < 2; s++ {
+		all := append([]sop{}, ops[s]...)
+		for _, v := range values {
+			all = append(all, sop{first: end, last: end, kind: "Has", v: v, ok: has(info.final[s], v), comp: -1})
 		}
-		all := append([]lin.Op{}, ops[s]...)
-		fin := map[int]bool{}
-		for _, v := range info.final[s] {
-			fin[v] = true
+		if len(all) > linMaxOps {
+			// never with the generators of run(): at most 7 set-up calls + 12 calls (12 x 6 possible element operations if all are composite) + 6 values
+			c.Count("lin_unchecked_history_too_long")
+			c.Unobservable("C05 linearizability oracle: history of more than 128 operations, not checked")
+			continue
 		}
-		keys := map[int]bool{}
-		for _, o := range all {
-			keys[o.K] = true
+		if len(need[s]) > 0 {
+			c.Count("lin_checked_sets_receiving_addset_removeset")
+		} else {
+			c.Count("lin_checked_sets_plain")
 		}
-		for v := range fin {
-			keys[v] = true
-		}
-		for k := range keys {
-			all = append(all, lin.Op{T: -1, First: end, Last: end, Kind: "Load", K: k, ROK: fin[k]})
-		}
-		if len(all) <= 64 {
-			if ok, _ := lin.Check(nil, all); !ok {
-				return fmt.Sprintf("set %d: Add/Remove/Has history is not linearizable to a set (successful Adds and Removes of some value do not alternate consistently with real time)", s)
+		if !linSet(all, need[s]) {
+			if len(need[s]) > 0 {
+				return fmt.Sprintf("set %d: no linearization: the Add/Remove/Has results, the counts of the AddSet/RemoveSet calls into this set (attributed to values in any way) and the final contents are not those of one atomic set", s)
 			}
+			return fmt.Sprintf("set %d: Add/Remove/Has history is not linearizable to a set (successful Adds and Removes of some value do not alternate consistently with real time)", s)
 		}
 	}
 	return ""
 }
 
-func layout(which int) []CallSpec {
-	A := func(v int) CallSpec { return CallSpec{Op: "Add", V: v} }
-	R := func(v int) CallSpec { return CallSpec{Op: "Remove", V: v} }
-	H := func(v int) CallSpec { return CallSpec{Op: "Has", V: v} }
-	L := CallSpec{Op: "Len"}
+func layout(which int) []CallSpec { return layoutOn(0, which) }
+
+// layoutOn puts set s into one of six internal states of its map
+func layoutOn(s, which int) []CallSpec {
+	A := func(v int) CallSpec { return CallSpec{Op: "Add", S: s, V: v} }
+	R := func(v int) CallSpec { return CallSpec{Op: "Remove", S: s, V: v} }
+	H := func(v int) CallSpec { return CallSpec{Op: "Has", S: s, V: v} }
+	L := CallSpec{Op: "Len", S: s}
 	switch which {
 	case 0:
 		return nil
@@ -296,13 +616,72 @@ func layout(which int) []CallSpec {
 	}
 }
 
-func explore(c *core.Ctx, cs Case, maxPre, limit int) {
+// explore enumerates, breadth-first by number of pre-emptions, the schedules of the concurrent part (the set-up
+// prefix runs alone first).
+//
+// A schedule is explored by re-running the program along a prefix of thread choices taken from an earlier run and
+// deviating at its end. The runs are not deterministic, though: dirtyLocked and Range iterate a Go map, whose order
+// the runtime randomises on every iteration, so the re-run may process the keys in another order and the deviation
+// would then land at a different point (and the point aimed at would never be visited). Therefore every run records,
+// for each of its prefixes, a signature of the steps (goroutine, label, key) executed so far, and a re-run that does
+// not reproduce the signature of the prefix it was derived from is repeated (a fresh iteration order each time) until
+// it does, at most exploreTries times.
+const exploreTries = 40
+
+func explore(c *core.Ctx, cs Case, maxPre, limit int) int {
 	r0, _ := execute(Case{Prefix: cs.Prefix, Progs: [][]CallSpec{{}}}, sched.NonPreemptive)
-	sched.ExploreBFS(func(prefix []int) sched.Result {
-		r, info := execute(cs, sched.Prefix(prefix))
+	base := r0.Chosen
+	sigs := map[uint64]uint64{} // hash of a prefix of choices -> hash of the steps executed along it (set-up excluded)
+	const off, prime = 14695981039346656037, 1099511628211
+	mix := func(h uint64, x int) uint64 { return (h ^ uint64(x+1)) * prime }
+	stepSig := func(h uint64, s sched.Step) uint64 {
+		h = mix(h, s.T)
+		for i := 0; i < len(s.Label); i++ {
+			h = mix(h, int(s.Label[i]))
+		}
+		return mix(h, s.Key)
+	}
+	return sched.ExploreBFS(func(prefix []int) sched.Result {
+		var want uint64
+		have := false
+		if len(prefix) > len(base) {
+			hc := uint64(off)
+			for _, t := range prefix[:len(prefix)-1] {
+				hc = mix(hc, t)
+			}
+			want, have = sigs[hc]
+		}
+		var r sched.Result
+		var info *runInfo
+		for try := 1; ; try++ {
+			r, info = execute(cs, sched.Prefix(prefix))
+			if !have {
+				break
+			}
+			hs := uint64(off)
+			for j := len(base); j < len(prefix)-1 && j < len(r.Steps); j++ {
+				hs = stepSig(hs, r.Steps[j])
+			}
+			if hs == want {
+				break
+			}
+			if try >= exploreTries {
+				c.Count("explore_runs_that_did_not_reproduce_their_prefix")
+				break
+			}
+			c.Count("explore_reruns_for_map_iteration_order")
+		}
 		report(c, cs, r, info)
+		hc, hs := uint64(off), uint64(off)
+		for j := 0; j < len(r.Steps) && j < len(r.Chosen); j++ {
+			if j >= len(base) {
+				sigs[hc] = hs // the steps before step j, for children that deviate at step j
+				hs = stepSig(hs, r.Steps[j])
+			}
+			hc = mix(hc, r.Chosen[j])
+		}
 		return r
-	}, r0.Chosen, maxPre, limit, func(sched.Result) {})
+	}, base, maxPre, limit, func(sched.Result) {})
 }
 
 func has(s []int, x int) bool {
@@ -365,6 +744,14 @@ func run(c *core.Ctx) {
 	}
 	battery = append(battery, [2][]CallSpec{{{Op: "AddSet", S: 0, Arg: 1}}, {mk("Remove", 0)}})
 	battery = append(battery, [2][]CallSpec{{{Op: "RemoveSet", S: 0, Arg: 0}}, {mk("Add", 1)}})
+	// AddSet / RemoveSet into set 0 (from set 1 = {0,3}) racing with a plain Add / Remove of the same value of set 0, and
+	// with another AddSet / RemoveSet into set 0: an element is counted by exactly one of the overlapping calls
+	comp := func(op string) CallSpec { return CallSpec{Op: op, S: 0, Arg: 1} }
+	for _, a := range []string{"AddSet", "RemoveSet"} {
+		for _, b := range []CallSpec{mk("Add", 0), mk("Remove", 0), comp("AddSet"), comp("RemoveSet")} {
+			battery = append(battery, [2][]CallSpec{{comp(a)}, {b, mk("Has", 0)}})
+		}
+	}
 	// more programs: a racing pair followed by calls that promote the dirty map and re-observe
 	for _, a := range []string{"Add", "Remove"} {
 		for _, v := range []int{0, 1} {
@@ -372,19 +759,61 @@ func run(c *core.Ctx) {
 			battery = append(battery, [2][]CallSpec{{mk("Add", 2), mk("Len", 0)}, {mk(a, v), mk("Has", v), mk("Add", v)}})
 		}
 	}
+	// the argument set of AddSet / RemoveSet is mutated by the other goroutine while it is being iterated: set 1 is
+	// put into each internal layout (values 0,1,2), set 0 holds 0 and 1; the second goroutine adds / removes members of
+	// set 1 (a present value, a removed one, a new one) and then observes set 0
+	type argProg struct {
+		a, b []CallSpec
+	}
+	var argBattery []argProg
+	for _, comp := range []string{"AddSet", "RemoveSet"} {
+		for _, m := range []CallSpec{{Op: "Add", S: 1, V: 0}, {Op: "Remove", S: 1, V: 0}, {Op: "Add", S: 1, V: 4}, {Op: "Remove", S: 1, V: 1}} {
+			argBattery = append(argBattery, argProg{[]CallSpec{{Op: comp, S: 0, Arg: 1}}, []CallSpec{m, {Op: "Has", S: 0, V: m.V}}})
+		}
+		// ... and both at once: the receiver is changed and the argument is changed
+		argBattery = append(argBattery, argProg{[]CallSpec{{Op: comp, S: 0, Arg: 1}}, []CallSpec{{Op: "Remove", S: 1, V: 1}, {Op: "Add", S: 0, V: 2}}})
+	}
 	maxPre := c.N(2, 3, 2)
-	limit := c.N(300, 1500, 600)
+	limit := c.N(1000, 1500, 600) // a cap only: the largest <= 2 pre-emption space of the battery has about 630 schedules
 	emitEvery, emitCount = c.N(40, 40, 1), 0
+	exploreCounted := func(cs Case, limit int) {
+		c.Count("explore_programs")
+		n := explore(c, cs, maxPre, limit)
+		if n > c.Stats["explore_max_schedules_of_one_program"] {
+			c.Stats["explore_max_schedules_of_one_program"] = n
+		}
+		if n >= limit {
+			c.Count("explore_programs_cut_at_limit") // the <= maxPre pre-emption space of this program was NOT enumerated completely
+		}
+	}
 	for _, b := range battery {
 		for lay := 0; lay < 6; lay++ {
 			cs := Case{Prefix: layout(lay), Progs: [][]CallSpec{b[0], b[1]}, Kind: fmt.Sprintf("explore_l%d", lay)}
 			if b[0][0].Op == "AddSet" || b[0][0].Op == "RemoveSet" { // give set 1 some contents for AddSet
 				cs.Prefix = append(append([]CallSpec{}, cs.Prefix...), CallSpec{Op: "Add", S: 1, V: 0}, CallSpec{Op: "Add", S: 1, V: 3})
 			}
-			explore(c, cs, maxPre, limit)
+			exploreCounted(cs, limit)
+		}
+	}
+	for _, b := range argBattery {
+		for lay := 0; lay < 6; lay++ {
+			pre := append(append([]CallSpec{}, layoutOn(1, lay)...), CallSpec{Op: "Add", S: 0, V: 0}, CallSpec{Op: "Add", S: 0, V: 1})
+			exploreCounted(Case{Prefix: pre, Progs: [][]CallSpec{b.a, b.b}, Kind: fmt.Sprintf("explore_arg_l%d", lay)}, limit)
+		}
+	}
+	// a second turn of the CAS loop of tryLoadOrStore / tryExpungeLocked needs the entry to change twice around the failing
+	// CAS: three goroutines (the looping one, one that adds the value, one that removes it), two pre-emptions
+	for _, first := range []CallSpec{mk("Add", 0), mk("Add", 5)} {
+		for lay := 0; lay < 6; lay++ {
+			exploreCounted(Case{Prefix: layout(lay), Progs: [][]CallSpec{{first}, {mk("Add", 0)}, {mk("Remove", 0)}}, Kind: fmt.Sprintf("explore_l%d", lay)}, limit)
 		}
 	}
 	emitEvery = 1
+	if n := c.Stats["explore_programs_cut_at_limit"]; n > 0 {
+		c.Note(fmt.Sprintf("exploration: %d of %d (program, layout) pairs reached the limit of %d schedules before their <= %d pre-emption space was exhausted", n, c.Stats["explore_programs"], limit, maxPre))
+	} else {
+		c.Note(fmt.Sprintf("exploration: the <= %d pre-emption schedule space of all %d (program, layout) pairs was enumerated completely (no pair reached the limit of %d schedules; largest space: %d schedules)", maxPre, c.Stats["explore_programs"], limit, c.Stats["explore_max_schedules_of_one_program"]))
+	}
 	// 2. random schedules: 2-8 goroutines over universe {0,1} (8 only with one call each)
 	opsA := []string{"Add", "Add", "Remove", "Remove", "Has", "Len", "AddSet", "RemoveSet"}
 	for i := c.N(500, 40000, 8000); i > 0; i-- {
@@ -400,7 +829,13 @@ func run(c *core.Ctx) {
 				if (op == "AddSet" || op == "RemoveSet" || op == "Len") && c.Rng.Chance(60) {
 					op = "Add"
 				}
-				progs[t] = append(progs[t], CallSpec{Op: op, S: 0, V: c.Rng.Intn(2), Arg: c.Rng.Intn(2)})
+				// receiver: mostly set 0, one call in four on set 1 - so that a set which is the ARGUMENT of another
+				// goroutine's AddSet / RemoveSet is changed while it is being iterated
+				recv := 0
+				if c.Rng.Chance(25) {
+					recv = 1
+				}
+				progs[t] = append(progs[t], CallSpec{Op: op, S: recv, V: c.Rng.Intn(2), Arg: c.Rng.Intn(2)})
 			}
 		}
 		pre := layout(c.Rng.Intn(6))
@@ -411,4 +846,5 @@ func run(c *core.Ctx) {
 		r, info := execute(cs, sched.Random(c.Rng.Intn, 50))
 		report(c, cs, r, info)
 	}
+	coverageReport(c, setLabels)
 }
